@@ -33,6 +33,9 @@ const HOSTS: &[(&str, &str, &str)] = &[
     ("shop.bücher.example", "shop.xn--bcher-kva.example", "xn--bcher-kva.example"),
     ("日本.jp", "xn--wgv71a.jp", "xn--wgv71a.jp"),
     ("1.2.3.4", "1.2.3.4", "1.2.3.4"),
+    // different addresses that share their last two octets: an address is its own site
+    ("10.0.1.1", "10.0.1.1", "10.0.1.1"),
+    ("192.168.1.1", "192.168.1.1", "192.168.1.1"),
     ("[::1]", "[::1]", "[::1]"),
     ("[2001:db8::1]", "[2001:db8::1]", "[2001:db8::1]"),
     ("localhost", "localhost", "localhost"),
@@ -309,7 +312,56 @@ fn check_mutated(e: &adblock::Engine, r: &mut Rng) -> Out {
     out
 }
 
+/// The pre-parsed constructor takes whatever URL text the embedder hands over, including URLs
+/// whose scheme has no `//` (data:, blob:, about:, javascript:, mailto:) and scheme-less text:
+/// only http, https, ws and wss are eligible for matching.
+pub fn preparsed_schemes(ctx: &mut Ctx, prop: &str) {
+    let sub = "preparsed";
+    let rules: Vec<String> = vec![";base64,".into(), "/player-ads/".into(), "blank".into(), "void".into(), "*$image".into(), "$csp=script-src 'none'".into(), "||example.com^".into(), "*$removeparam=x".into()];
+    let e = build_engine(&rules, ParseOptions::default(), true, true);
+    let urls: &[(&str, bool)] = &[
+        ("data:image/png;base64,AAAA", false), ("blob:https://example.com/player-ads/1", false), ("about:blank", false), ("javascript:void(0)", false),
+        ("mailto:a@example.com", false), ("chrome-extension://abc/player-ads/x.js", false), ("moz-extension://abc/x", false), ("web+ap://example.com/x", false),
+        ("view-source:https://example.com/", false), ("ftp://example.com/player-ads/", false), ("file:///player-ads/x", false), ("DATA:text/html,x", false),
+        ("https://example.com/player-ads/?x=1", true), ("http://example.com/", true), ("ws://example.com/", true), ("wss://example.com/blank", true),
+        // (upper-case schemes are not judged here: pre-parsed parts come out of a URL parser, which lower-cases the scheme)
+    ];
+    let mut idx = 0u64;
+    for (url, eligible) in urls {
+        for host in ["", "example.com", "abc"] {
+            for ty in ["image", "document", "script", "websocket", "other"] {
+                idx += 1;
+                if !ctx.begin_case(sub, idx) {
+                    continue;
+                }
+                let r = guarded(|| {
+                    let rq = Request::preparsed(url, host, "other.org", ty, true);
+                    let a = ask(&e, &rq);
+                    let s = e.check_network_request_subset(&rq, true, true);
+                    (rq.is_supported, a, s.matched || s.redirect.is_some() || s.rewritten_url.is_some() || s.exception.is_some())
+                });
+                ctx.eval();
+                match r {
+                    Err(sig) => ctx.violation(sub, idx, &format!("{}:{}", prop, sig), json!({"url": url})),
+                    Ok((supported, a, subset_hit)) => {
+                        if *eligible {
+                            ctx.nontrivial(fnv(&format!("{}|{}|{}", url, host, ty)));
+                        }
+                        if supported != *eligible {
+                            ctx.violation(sub, idx, &format!("{}:is_supported-misclassified", prop), json!({"url": url, "constructor": "preparsed", "is_supported": supported}));
+                        }
+                        if !*eligible && (!a.is_default() || subset_hit) {
+                            ctx.violation(sub, idx, &format!("{}:unsupported-scheme-request-was-matched", prop), json!({"url": url, "constructor": "preparsed", "hostname": host, "type": ty, "verdict": a.to_json()}));
+                        }
+                    }
+                }
+            }
+        }
+    }
+}
+
 pub fn run(ctx: &mut Ctx) {
+    preparsed_schemes(ctx, "C12");
     let e = build_engine(&battery_rules(), ParseOptions::default(), true, true);
     for (sub, cases) in [("plain", ctx.n(400_000, 20_000_000)), ("mutated", ctx.n(400_000, 20_000_000))] {
         for idx in 0..cases {
